@@ -1,3 +1,6 @@
 import RoProofs.Gate
 import RoProofs.Script
 import RoProofs.Ops.Basic
+import RoProofs.Ops.FilterSpecs
+import RoProofs.Ops.TransformSpecs
+import RoProofs.Ops.AggregateSpecs
